@@ -99,6 +99,8 @@ func variantKeys(variant, init int) (addKey, opKey int, ok bool) {
 
 // allSeqs appends every sequence prefix ++ w for w over the alphabet with |w| in [lo,hi], for the given modes and both initial disks.
 func allSeqs(plan []seqSpec, prefix []int, lo, hi int, ms []int, tag string, variant int) []seqSpec {
+	// Begin,OpenBtree on the absent store only rolls the transaction back (covered by the unprefixed sets)
+	skipAbsent := len(prefix) == 2 && prefix[1] == cOpenBtree && lo >= 3
 	var rec func(cur []int)
 	rec = func(cur []int) {
 		n := len(cur) - len(prefix)
@@ -106,7 +108,7 @@ func allSeqs(plan []seqSpec, prefix []int, lo, hi int, ms []int, tag string, var
 			for _, m := range ms {
 				for init := 0; init < 2; init++ {
 					addKey, opKey, ok := variantKeys(variant, init)
-					if !ok {
+					if !ok || skipAbsent && init == 0 {
 						continue
 					}
 					s := seqSpec{Mode: m, Init: init, Tag: tag}
@@ -247,10 +249,13 @@ func sample(plan, pool []seqSpec, n int, r *hx.Rng, tag string) []seqSpec {
 // withFaults returns, for every sequence, one copy per (lifecycle call position, fault kind): the
 // positions holding Commit / Rollback / Phase1Commit / Phase2Commit and the closing Rollback the
 // driver appends (index len(Calls)).
-func withFaults(seqs []seqSpec, tag string) []seqSpec {
+func withFaults(seqs []seqSpec, tag string, closing bool) []seqSpec {
 	var out []seqSpec
 	for _, s := range seqs {
 		for j := 0; j <= len(s.Calls); j++ {
+			if j == len(s.Calls) && !closing {
+				continue
+			}
 			k := cRollback
 			if j < len(s.Calls) {
 				k = s.Calls[j].C
@@ -333,11 +338,11 @@ func buildPlan(cfg *hx.RunCfg) []seqSpec {
 		plan = allSeqs(plan, []int{cBegin, cNewBtree}, 3, 4, writerOnly, "writer:Begin,NewBtree+3..4", 1)
 		plan = allSeqs(plan, []int{cBegin, cOpenBtree}, 3, 4, writerOnly, "writer:Begin,OpenBtree+3..4", 1)
 		plan = allSeqs(plan, []int{cBegin, cOpenBtree}, 1, 4, writerOnly, "writer:Begin,OpenBtree+1..4 (ops on the added key)", 2)
-		plan = append(plan, withFaults(faultBase(1, 3, false), "fault:Begin,New|OpenBtree+1..3")...)
-		plan = append(plan, withFaults(faultBase(4, 4, true), "fault:Begin,New|OpenBtree+write+3")...)
+		plan = append(plan, withFaults(faultBase(1, 3, false), "fault:Begin,New|OpenBtree+1..3", true)...)
+		plan = append(plan, withFaults(faultBase(4, 4, true), "fault:Begin,New|OpenBtree+write+3 (explicit lifecycle calls)", false)...)
 		n := cfg.N
 		if n == 0 {
-			n = 12000
+			n = 8000
 		}
 		for i := 0; i < n; i++ {
 			plan = append(plan, randomSeq(r))
@@ -351,13 +356,13 @@ func buildPlan(cfg *hx.RunCfg) []seqSpec {
 	plan = allSeqs(plan, []int{cBegin, cNewBtree}, 3, 3, writerOnly, "writer:Begin,NewBtree+3", 1)
 	plan = allSeqs(plan, []int{cBegin, cOpenBtree}, 3, 3, writerOnly, "writer:Begin,OpenBtree+3", 1)
 	plan = allSeqs(plan, []int{cBegin, cOpenBtree}, 1, 3, writerOnly, "writer:Begin,OpenBtree+1..3 (ops on the added key)", 2)
-	plan = append(plan, withFaults(faultBase(1, 2, false), "fault:Begin,New|OpenBtree+1..2")...)
+	plan = append(plan, withFaults(faultBase(1, 2, false), "fault:Begin,New|OpenBtree+1..2", true)...)
 	// the rest of the small scope is sampled in the quick tier (all of it runs in the thorough tier)
 	n := cfg.N
 	if n == 0 {
 		n = 1000
 	}
-	plan = sample(plan, withFaults(faultBase(3, 3, true), ""), n+n/2, r, "sampled fault:Begin,New|OpenBtree+write+2")
+	plan = sample(plan, withFaults(faultBase(3, 3, true), "", true), n+n/2, r, "sampled fault:Begin,New|OpenBtree+write+2")
 	pool := allSeqs(nil, []int{cBegin, cNewBtree}, 3, 3, nonWriters, "", 1)
 	pool = allSeqs(pool, []int{cBegin, cOpenBtree}, 3, 3, nonWriters, "", 1)
 	plan = sample(plan, pool, n/2, r, "sampled nonwriter:Begin,New/OpenBtree+3")
@@ -526,9 +531,16 @@ func coqCall(c callSpec, armed bool, kind string, fired bool, phase int) string 
 		}
 		return "false"
 	}
+	pf := "PNone"
+	if f && !p2 {
+		pf = "PFail"
+		if kind == "sr" {
+			pf = "PFailStore"
+		}
+	}
 	switch c.C {
 	case cCommit:
-		return fmt.Sprintf("CCommit %s %s", b(f && !p2), b(f && p2))
+		return fmt.Sprintf("CCommit %s %s", pf, b(f && p2))
 	case cRollback:
 		switch {
 		case f && kind == "sr":
@@ -538,7 +550,7 @@ func coqCall(c callSpec, armed bool, kind string, fired bool, phase int) string 
 		}
 		return "(CRollback RbNone)"
 	case cP1:
-		return "CP1 " + b(f)
+		return "CP1 " + pf
 	case cP2:
 		return "CP2 " + b(f)
 	case cAdd:
